@@ -1,6 +1,6 @@
 (* C01 -- property theorems only.  Proofs live in C01/Proofs*.v. *)
 From Coq Require Import NArith List.
-From DV Require Import Base.Outcome Base.Bytes Base.Names Base.PName C01.Gen C01.Model C01.Model2 C01.Proofs C01.Proofs2 C01.Proofs3 C01.Proofs4 C01.Proofs5.
+From DV Require Import Base.Outcome Base.Bytes Base.Names Base.PName C01.Gen C01.Model C01.Model2 C01.Model3 C01.Proofs C01.Proofs2 C01.Proofs3 C01.Proofs4 C01.Proofs5 C01.Proofs6.
 From DV Require Import C05.Schema C05.Model.
 Import ListNotations.
 Local Open Scope N_scope.
@@ -171,3 +171,63 @@ Print Assumptions C01_calls_do_not_interfere.
 Theorem C01_source_constants_peek : gen_matches_peek = true.
 Proof. exact gen_matches_peek_ok. Qed.
 Print Assumptions C01_source_constants_peek.
+
+(* ---- widening round 2 ---- *)
+
+(* typed data for any schema and any total name decoder; instances: IPSECKEY
+   (rows by gateway type) and the contents of every EDNS option of the table *)
+Theorem C01_typed_data_total_gen : forall dec s m pos lim, dec_total dec -> lim <= mlen m ->
+  no_panic (parse_rdata dec s m pos lim).
+Proof. exact parse_rdata_total_gen. Qed.
+Print Assumptions C01_typed_data_total_gen.
+
+Theorem C01_ipseckey_total : forall m pos lim, lim <= mlen m -> no_panic (ipseckey_parse m pos lim).
+Proof. exact ipseckey_parse_total. Qed.
+Print Assumptions C01_ipseckey_total.
+
+Theorem C01_option_data_total : forall code d,
+  no_panic (parse_rdata flat_dec (option_schema code) d 0 (len d)).
+Proof. exact option_data_total. Qed.
+Print Assumptions C01_option_data_total.
+
+(* the dig printer: after a loop over a section that met no error,
+   next_section() is Ok(Some(..)) -- the two .unwrap().unwrap() -- and after a
+   clean question loop answer() is Ok -- the .unwrap() *)
+Theorem C01_next_section_after_clean : forall m s l s',
+  has_header m -> s_kind s < 3 -> s_err s = None ->
+  drain (r_next m) (sec_fuel s) s [] = Ok (l, s') -> has_err l = false ->
+  exists n, r_next_section m s = Ok (Some n) /\ s_kind n = s_kind s + 1 /\ s_err n = None.
+Proof. exact next_section_after_clean. Qed.
+Print Assumptions C01_next_section_after_clean.
+
+Theorem C01_answer_after_clean : forall m qs l s',
+  has_header m -> s_err qs = None ->
+  drain (q_next m) (sec_fuel qs) qs [] = Ok (l, s') -> has_err l = false ->
+  exists a, q_to_answer m qs = Ok a /\ s_kind a = 1 /\ s_err a = None.
+Proof. exact answer_after_clean. Qed.
+Print Assumptions C01_answer_after_clean.
+
+(* the whole control flow of display_dig_style on every message *)
+Theorem C01_dig_walk_total : forall m, has_header m -> no_panic (dig_walk m).
+Proof. exact dig_walk_total. Qed.
+Print Assumptions C01_dig_walk_total.
+
+(* RecordIter for AllRecordData, ZoneRecordData and any single type, with or
+   without the IN filter, from any iterator state *)
+Theorem C01_limit_to_total : forall m s sl io, no_panic (limit_to m s sl io).
+Proof. exact limit_to_total. Qed.
+Print Assumptions C01_limit_to_total.
+
+Theorem C01_copy_records_total : forall m, has_header m -> no_panic (copy_records_read m).
+Proof. exact copy_records_read_total. Qed.
+Print Assumptions C01_copy_records_total.
+
+Theorem C01_get_last_additional_total : forall m, has_header m -> no_panic (get_last_additional m).
+Proof. exact get_last_additional_total. Qed.
+Print Assumptions C01_get_last_additional_total.
+
+(* calls in any order, now including typed options, limit_to, copy_records,
+   get_last_additional and the dig printer *)
+Theorem C01_read_ops3_total : forall m ops, no_panic (read_ops3 m ops).
+Proof. exact read_ops3_total. Qed.
+Print Assumptions C01_read_ops3_total.
